@@ -122,13 +122,33 @@ pub fn c04(tier: &str, flavor: Flavor) -> Spec {
             jobs.push(job(single(&cfg, flavor, settled(&ops)), &[0], "c04"));
         }
     }
+    // the same histories with entries whose charge is exactly zero (cost 0, a Coster valuing
+    // everything at 0, internal cost ignored): "any key set whose total cost fits" includes them
+    {
+        let zcfg = Cfg { cleanup_ms: 1000, phase_ms: 0, buffer_size: 8, max_cost: 100, coster_base: 0, coster_mod: 0, ignore_internal_cost: true, ..Cfg::default() };
+        let zero = |o: &Op| match *o {
+            Op::Ins { k, ttl_ms, .. } => Op::Ins { k, c: 0, ttl_ms },
+            Op::Pres { k, .. } => Op::Pres { k, c: 0 },
+            x => x,
+        };
+        for s in &seqs {
+            let mut ops: Vec<Op> = s.iter().map(zero).collect();
+            ops.push(Op::Adv { ms: 1000 });
+            ops.push(Op::Adv { ms: 1000 });
+            for &k in keys {
+                ops.push(ins(k, 0, 0));
+                ops.push(Op::Get { k });
+            }
+            jobs.push(job(single(&zcfg, flavor, settled(&ops)), &[0], "c04-zero-charge"));
+        }
+    }
     Spec {
         id: "C04",
         jobs,
         oracle: o_c04,
         interesting: |_, t| t.ledger.iter().any(|e| e.kind != CbKind::Exit) || t.recs.iter().any(|r| matches!(r.res, Res::Val(Some(_)))),
         rule: format!(
-            "every history of depth {} over {} symbols (I(k,ttl in 0/1s/2.5s), P(k), R(k), X, A(0.5s), A(1s); keys {:?}) x {} (cleanup interval, clock phase) settings, each followed by 2 s of idle time and a lookup of every key, quiescence after every operation, every scheduling/select choice at preemption bound 0; exact comparison with a reference map after every operation; non-trivial = a callback fired or a lookup hit",
+            "every history of depth {} over {} symbols (I(k,ttl in 0/1s/2.5s), P(k), R(k), X, A(0.5s), A(1s); keys {:?}) x {} (cleanup interval, clock phase) settings, each followed by 2 s of idle time and a lookup of every key, quiescence after every operation, every scheduling/select choice at preemption bound 0; the same histories once more with zero-charge entries (cost 0, Coster 0) and a final re-insert of every key; exact comparison with a reference map after every operation; non-trivial = a callback fired or a lookup hit",
             depth,
             alpha.len(),
             keys,
@@ -141,7 +161,43 @@ pub fn c04(tier: &str, flavor: Flavor) -> Spec {
 // ------------------------------------------------------------------------------------------------
 
 fn o_c03(p: &Program, t: &Trace) -> Vec<Finding> {
-    o_map(p, t)
+    let mut v = o_map(p, t);
+    v.extend(o_no_ttl_stays(p, t));
+    v
+}
+
+/// Unsettled single-client histories with ample capacity (the tick-race family): a key that is
+/// written exactly once by the client, by an insert WITHOUT TTL that returned true, and never
+/// removed, is returned by every lookup that follows a later quiescent point - an entry without
+/// TTL never becomes invisible because of time, whatever the sweep is doing meanwhile.
+fn o_no_ttl_stays(p: &Program, t: &Trace) -> Vec<Finding> {
+    let mut out = Vec::new();
+    if is_settled(p) || p.threads.len() != 1 || p.cfg.max_cost < 100 || p.cfg.validator != ValidatorMode::Always {
+        return out;
+    }
+    let ops = &p.threads[0];
+    for k in p.keys() {
+        let writes: Vec<usize> = ops.iter().enumerate().filter(|(_, o)| matches!(o, Op::Ins { k: k2, .. } | Op::Pres { k: k2, .. } | Op::Mut { k: k2 } if *k2 == k)).map(|(i, _)| i).collect();
+        let touched = ops.iter().any(|o| matches!(o, Op::Rem { k: k2 } if *k2 == k) || matches!(o, Op::Clear | Op::Close | Op::MaxCost { .. }));
+        if writes.len() != 1 || touched || !matches!(ops[writes[0]], Op::Ins { ttl_ms: 0, .. }) {
+            continue;
+        }
+        let w = match t.recs.iter().find(|r| r.th == 0 && r.idx == writes[0]) {
+            Some(w) if w.res == Res::Bool(true) => w,
+            _ => continue,
+        };
+        let settle_at = match ops.iter().enumerate().find(|(i, o)| *i > writes[0] && **o == Op::Settle) {
+            Some((i, _)) => i,
+            None => continue,
+        };
+        for l in t.recs.iter().filter(|r| r.th == 0 && r.idx > settle_at && matches!(r.op, Op::Get { k: k2 } if k2 == k)) {
+            if !matches!(&l.res, Res::Val(Some((v, _))) if Some(*v) == w.wrote) {
+                out.push(("no-ttl-entry-vanished".to_string(), format!("{} (no TTL, returned true, ample capacity) but after quiescence {} returned {:?}", w.op.short(), l.op.short(), l.res)));
+                return out;
+            }
+        }
+    }
+    out
 }
 
 pub fn c03(tier: &str, flavor: Flavor) -> Spec {
@@ -257,12 +313,13 @@ pub fn c03(tier: &str, flavor: Flavor) -> Spec {
             }
         }
     }
+    jobs.extend(tick_race_jobs(flavor, quick, "c03-tick-race"));
     Spec {
         id: "C03",
         jobs,
         oracle: o_c03,
         interesting: |_, t| has_expiry(t) || t.recs.iter().any(|r| matches!(r.res, Res::Ttl(Some(x)) if x != u128::MAX)),
-        rule: "scripted time lines: TTL in {0.3,1,1.5,2.5 s,1 h} x clock phase {0,0.35,0.95 s} x cleanup interval {0.5,2 s} x neighbour key sharing the expiry second {absent,inserted,updated,removed} x optional re-insert (at 0.25..2 s, with TTL none/0.5 s/2 s, directly or after a remove of the key); get + get_ttl + ValueRef::ttl probed every 250 ms and at deadline-1ns / deadline / deadline+1ns until deadline + 3 s, quiescence after every step, all select/scheduling choices at bound 0; exact comparison with reference deadlines".into(),
+        rule: "scripted time lines: TTL in {0.3,1,1.5,2.5 s,1 h} x clock phase {0,0.35,0.95 s} x cleanup interval {0.5,2 s} x neighbour key sharing the expiry second {absent,inserted,updated,removed} x optional re-insert (at 0.25..2 s, with TTL none/0.5 s/2 s, directly or after a remove of the key); get + get_ttl + ValueRef::ttl probed every 250 ms and at deadline-1ns / deadline / deadline+1ns until deadline + 3 s, quiescence after every step, all select/scheduling choices at bound 0; exact comparison with reference deadlines; plus the tick-race family (two TTL residents, the clock jumps past their deadlines, the client re-inserts / removes without waiting for quiescence, bound 2): an entry re-inserted without TTL stays visible".into(),
         assumptions: COMMON_ASSUMPTIONS.iter().map(|s| s.to_string()).collect(),
     }
 }
@@ -544,7 +601,7 @@ pub fn c16(tier: &str, flavor: Flavor) -> Spec {
     }
     // evictions and rejections among entries of different costs: what on_evict / on_reject are told
     // is each entry's own charge, not the newcomer's
-    let ev_alpha = [ins(1, 6, 0), ins(2, 3, 0), ins(3, 9, 0), ins(3, 4, 0), ins(1, 2, 0), ins(2, 0, 0), ins(3, 11, 0)];
+    let ev_alpha = [ins(1, 6, 0), ins(2, 3, 0), ins(3, 9, 0), ins(3, 4, 0), ins(1, 2, 0), ins(2, 0, 0), ins(3, 11, 0), ins(4, 500, 0)];
     for (base, modu) in [(0i64, 0u32), (2, 3)] {
         for ignore in [true, false] {
             let max_cost = if ignore { 10 } else { 10 + 2 * isz };
@@ -560,7 +617,7 @@ pub fn c16(tier: &str, flavor: Flavor) -> Spec {
         oracle: o_c16,
         interesting: |_, t| t.snaps.iter().any(|s| !s.policy.key_costs.is_empty()),
         rule: format!(
-            "coster {{const 0, const 3, 7 + seq%5}} x ignore_internal_cost {{true,false}} x max_cost {{ample, tight}} x every history of depth {} over {} symbols (I(1,c), P(1,c) for c in 0/1/5/1000, I(2,1), I(2,0)), quiescence after every write; plus histories over {{I(1,6), I(2,3), I(3,9), I(3,4), I(1,2), I(2,0), I(3,11)}} on a cache of capacity 10 (evictions and rejections among entries of different costs); oracle: charge == (c != 0 ? c : coster(v)) + (ignore ? 0 : size_of StoreItem) after every step, callback cost == charged cost; non-trivial = something is charged",
+            "coster {{const 0, const 3, 7 + seq%5}} x ignore_internal_cost {{true,false}} x max_cost {{ample, tight}} x every history of depth {} over {} symbols (I(1,c), P(1,c) for c in 0/1/5/1000, I(2,1), I(2,0)), quiescence after every write; plus histories over {{I(1,6), I(2,3), I(3,9), I(3,4), I(1,2), I(2,0), I(3,11), I(4,500) (oversize)}} on a cache of capacity 10 (evictions and rejections among entries of different costs); oracle: charge == (c != 0 ? c : coster(v)) + (ignore ? 0 : size_of StoreItem) after every step, callback cost == charged cost; non-trivial = something is charged",
             depth,
             alpha.len()
         ),
